@@ -381,19 +381,44 @@ package common
 //@   requires separate: other != nil ==> other != m && other.data != m.data &&
 //@       (forall p Blake2b224, p2 Blake2b224 :: p in m.data && p2 in other.data ==> m.data[p] != other.data[p2])
 //@   requires noshare: forall p Blake2b224, p2 Blake2b224 :: p in m.data && p2 in m.data && p != p2 ==> m.data[p] != m.data[p2]
+//@   requires inner: forall p Blake2b224 :: p in m.data ==> m.data[p] != nil
 //@   ensures sum: other != nil ==> forall p Blake2b224, a cbor.ByteString :: qty(m, p, a) == old(qty(m, p, a)) + old(qty(other, p, a))
 //@   ensures operand: other != nil ==> forall p Blake2b224, a cbor.ByteString :: qty(other, p, a) == old(qty(other, p, a))
 //@   loop 0 invariant m.data != nil && other.data == old(other.data) && m.data == old(m.data)
 //@   loop 0 invariant forall p Blake2b224, p2 Blake2b224 :: p in m.data && p2 in other.data ==> m.data[p] != other.data[p2]
 //@   loop 0 invariant forall p Blake2b224, p2 Blake2b224 :: p in m.data && p2 in m.data && p != p2 ==> m.data[p] != m.data[p2]
+//@   loop 0 invariant forall p Blake2b224 :: p in m.data ==> m.data[p] != nil
 //@   loop 0 invariant forall p Blake2b224, a cbor.ByteString :: qty(other, p, a) == old(qty(other, p, a))
 //@   loop 0 invariant forall p Blake2b224, a cbor.ByteString :: qty(m, p, a) == old(qty(m, p, a)) + ite(visited[p], old(qty(other, p, a)), 0)
 //@   loop 1 invariant m.data != nil && other.data == old(other.data) && m.data == old(m.data) && policy in other.data && assets == other.data[policy]
 //@   loop 1 invariant forall p Blake2b224, p2 Blake2b224 :: p in m.data && p2 in other.data ==> m.data[p] != other.data[p2]
 //@   loop 1 invariant forall p Blake2b224, p2 Blake2b224 :: p in m.data && p2 in m.data && p != p2 ==> m.data[p] != m.data[p2]
+//@   loop 1 invariant forall p Blake2b224 :: p in m.data ==> m.data[p] != nil
 //@   loop 1 invariant forall p Blake2b224, a cbor.ByteString :: qty(other, p, a) == old(qty(other, p, a))
 //@   loop 1 invariant forall p Blake2b224, a cbor.ByteString :: p != policy ==> qty(m, p, a) == old(qty(m, p, a)) + ite(visited0[p], old(qty(other, p, a)), 0)
 //@   loop 1 invariant forall a cbor.ByteString :: qty(m, policy, a) == old(qty(m, policy, a)) + ite(visited[a], old(qty(other, policy, a)), 0)
+
+// C06: the normal form used by Compare and String: exactly the non-zero quantities, as fresh maps and
+// fresh integers (nothing that existed before the call is written), no empty inner map.
+//@ func (m *MultiAsset[*math/big.Int]) normalize() (ret)
+//@   props C06
+//@   attr loopframe fresh
+//@   assigns nothing
+//@   ensures exact: ret != nil && fresh(ret) && forall p Blake2b224, a cbor.ByteString :: (p in ret && a in ret[p]) <==> (m != nil && qty(m, p, a) != 0)
+//@   ensures values: forall p Blake2b224, a cbor.ByteString :: p in ret && a in ret[p] ==> ret[p][a] != nil && val(ret[p][a]) == qty(m, p, a)
+//@   ensures inner: forall p Blake2b224 :: p in ret ==> ret[p] != nil && fresh(ret[p])
+//@   ensures noshare: forall p Blake2b224, p2 Blake2b224 :: p in ret && p2 in ret && p != p2 ==> ret[p] != ret[p2]
+//@   loop 0 invariant ret != nil && fresh(ret) && m != nil && m.data != nil
+//@   loop 0 invariant forall p Blake2b224 :: p in ret ==> ret[p] != nil && fresh(ret[p])
+//@   loop 0 invariant forall p Blake2b224, p2 Blake2b224 :: p in ret && p2 in ret && p != p2 ==> ret[p] != ret[p2]
+//@   loop 0 invariant forall p Blake2b224, a cbor.ByteString :: (p in ret && a in ret[p]) <==> (visited[p] && qty(m, p, a) != 0)
+//@   loop 0 invariant forall p Blake2b224, a cbor.ByteString :: p in ret && a in ret[p] ==> ret[p][a] != nil && val(ret[p][a]) == qty(m, p, a)
+//@   loop 1 invariant ret != nil && fresh(ret) && m != nil && m.data != nil && policy in m.data && assets == m.data[policy]
+//@   loop 1 invariant forall p Blake2b224 :: p in ret ==> ret[p] != nil && fresh(ret[p])
+//@   loop 1 invariant forall p Blake2b224, p2 Blake2b224 :: p in ret && p2 in ret && p != p2 ==> ret[p] != ret[p2]
+//@   loop 1 invariant forall p Blake2b224, a cbor.ByteString :: p != policy ==> ((p in ret && a in ret[p]) <==> (visited0[p] && qty(m, p, a) != 0))
+//@   loop 1 invariant forall a cbor.ByteString :: (policy in ret && a in ret[policy]) <==> (visited[a] && qty(m, policy, a) != 0)
+//@   loop 1 invariant forall p Blake2b224, a cbor.ByteString :: p in ret && a in ret[p] ==> ret[p][a] != nil && val(ret[p][a]) == qty(m, p, a)
 
 // C02: the hand-written byte-level fast path for text-keyed metadata maps. No index or slice
 // expression can panic for any input and offset; a length or count read from the input is at most
@@ -450,18 +475,23 @@ package common
 //@   props C02
 //@ func extractDatumOffsets(datumArrayData, baseOffset, result) ()
 //@   props C02
+//@   requires result: result != nil
 //@   assigns result[*], gfall(read), cells(cbor.RawMessage), elems(cbor.RawMessage), cells([]cbor.RawMessage), elems(byte), cells(uint64), elems(uint64), cells([]uint64)
 //@ func extractRedeemerMapOffsets(redeemerData, baseOffset, result) ()
 //@   props C02
+//@   requires result: result != nil
 //@   assigns result[*], gfall(read), cells(cbor.RawMessage), elems(cbor.RawMessage), cells([]cbor.RawMessage), elems(byte), cells(uint64), elems(uint64), cells([]uint64)
 //@ func extractRedeemerArrayOffsets(redeemerData, baseOffset, result) ()
 //@   props C02
+//@   requires result: result != nil
 //@   assigns result[*], gfall(read), cells(cbor.RawMessage), elems(cbor.RawMessage), cells([]cbor.RawMessage), elems(byte), cells(uint64), elems(uint64), cells([]uint64)
 //@ func extractScriptArrayOffsets(scriptArrayData, baseOffset, scriptType, result) ()
 //@   props C02
+//@   requires result: result != nil
 //@   assigns result[*], gfall(read), cells(cbor.RawMessage), elems(cbor.RawMessage), cells([]cbor.RawMessage), elems(byte), cells(uint64), elems(uint64), cells([]uint64)
 //@ func extractMetadataOffsets(mapData, baseOffset, result) (err)
 //@   props C02
+//@   requires result: result != nil
 //@ func extractByronOutputOffsets(bodyData, bodyOffset, loc) ()
 //@   props C02
 //@ func isByronBlock(blockArray) (r)
